@@ -156,12 +156,15 @@ fn resolve<S: HasComponent<Component>>(
         token::Value::CommandRef(command_ref) => command_ref,
         _ => unreachable!(),
     };
-    let (array_index, array_len) = *input
-        .state()
-        .component()
-        .array_refs
-        .get(&command_ref)
-        .unwrap();
+    // An alias of an array created with \let is not in the map:
+    // as the module documentation says, arrays cannot be aliased.
+    let Some(&(array_index, array_len)) = input.state().component().array_refs.get(&command_ref)
+    else {
+        return Err(input.fatal_error(error::SimpleTokenError::new(
+            token,
+            "this command is not an array created by \\newIntArray (arrays cannot be aliased using \\let)",
+        )));
+    };
     let inner_index = parse::Uint::<{ parse::Uint::MAX }>::parse(input)?.0;
     if inner_index >= array_len {
         return Err(input.fatal_error(error::SimpleTokenError::new(
